@@ -1,6 +1,11 @@
 """C12 — water-filling returns the capacity-optimal power allocation (DESIGN.md §5 C12).
 
-Tie to source: `lean/PyPhysim/Model/C12.lean` is a hand model of
+Tie to source (a), regeneration: `harness/gen/c12.py` symbolically executes the current AST of
+`pyphysim/comm/waterfilling.py:doWF` and re-emits `lean/PyPhysim/Generated/C12WaterFilling.lean`
+(sort direction, initial removed count, recomputation + loop test as a function of the loop
+counter, remainder split, scatter, returned level); `generated_wf_matches_model` proves it equal
+to the hand model for all inputs.
+Tie to source (b), correspondence: `lean/PyPhysim/Model/C12.lean` is a hand model of
 `pyphysim/comm/waterfilling.py:doWF`; it is run at exact rationals by the
 compiled driver `drv_c12` on the *same* binary64 inputs (sent as exact `p/q`)
 and compared with the real code's output at rtol 1e-9 (allocation, level) and
@@ -43,8 +48,9 @@ DRIVER = 'drv_c12'
 RTOL = 1e-9
 
 CLAIM = {
-    'technique': 'Lean 4 proof about an executable model + exact-rational differential correspondence',
-    'text': 'Proved in Lean (35 theorems, any vector length, arbitrary linear ordered field; optimality over R): '
+    'technique': 'Lean 4 proof about an executable model + regeneration of doWF from the AST (bridge theorem) + '
+                 'exact-rational differential correspondence',
+    'text': 'Proved in Lean (39 theorems, any vector length, arbitrary linear ordered field; optimality over R): '
             'for every non-empty vector of positive gains, P > 0, N > 0, Es > 0 and EVERY argsort result '
             'satisfying the sort contract (any tie order), the model of doWF returns a value; the allocation has '
             'one entry per channel, is non-negative, sums to P, equals max(0, mu - N/(Es g_i)) for the returned '
@@ -53,14 +59,32 @@ CLAIM = {
             'not depend on the tie order of the sort and is equivariant under every permutation of the channels. '
             'The function run by the compiled driver is proved to be the Q instance of that model, and is compared '
             'with waterfilling.py on the same binary64 inputs (model in exact rational arithmetic). '
+            'Second tie, by regeneration: harness/gen/c12.py symbolically executes the current AST of doWF '
+            'and re-emits lean/PyPhysim/Generated/C12WaterFilling.lean on every run - sort direction '
+            '(argsort + [::-1]), initial number of removed channels, the recomputed minMu / Ps and the loop test '
+            '(sum(Ps) > dPt and removed < n) as a function of the loop counter, remainder split (dPt - sum(Ps)) / '
+            '(n - removed), scatter back to the original order, returned level incl. Es - in the source\'s own '
+            'terms (descending view, Python integer index arithmetic, a[np.arange(0,k)] / a[:k], a[-1]); theorem '
+            'generated_wf_matches_model proves that text, assembled, EQUAL to the hand model doWFWith for every '
+            'sort result and all arguments over any field (errors included; generated_wf_fuel_suffices: the loop '
+            'fuel n+1 suffices, no index expression leaves the domain). A semantic edit of waterfilling.py is '
+            'refused by the translator or breaks that proof, independently of the random inputs. '
             'Independent oracles on the real code (form, sum, sign, KKT, competitors, permutation) find the '
             'replay input when the tie breaks.',
     'note': 'Trusted additions: np.argsort is a parameter with a contract (permutation, non-decreasing gains), '
             'checked on every case; binary64 rounding is outside the theorems (allocation and level compared at '
             '1e-9 relative to max(P, best level, mu) - no absolute floor; 1e-5 for float32 gain arrays; bit-exact '
             'on the dyadic stream; the discrete number of switched-off channels compared only when every loop test '
-            'is >= 1e-9 away from equality, since the allocation is continuous across such ties). Hand model (no '
-            'translator): a behaviour the generators do not reach is not tied. Robustness classes: R6 (change of '
+            'is >= 1e-9 away from equality, since the allocation is continuous across such ties). Translator '
+            '(harness/gen/c12.py) is trusted for: reading the AST into the normal form (int expressions as linear '
+            'forms in n and the loop counter, fused elementwise maps, helper inlining, loop state as a function of '
+            'the counter - it checks that the loop body recomputes every variable by the SAME expression as the '
+            'code before the loop and from the counter alone, else refuses; for/range(n,-1,-1)/break is read as the '
+            'same loop with u = n - r), and the three hand-written numpy primitives of Model/C12Py.lean (pyGet = '
+            'a[i] with negative indices, pyPrefix = a[np.arange(0,k)] = a[:k] on 0 <= k <= len and RuntimeError '
+            'outside - proved unreachable, pyScatter = zeros(n); a[idx] = vals, last assignment wins). float(), '
+            'np.asarray(dtype=float) and the np.ndarray asserts are identities on the value level (dtype behaviour '
+            'is covered by correspondence / oracles R1 only). Robustness classes: R6 (change of '
             'units: P,N x s; g,N x s; g/s, Es x s) and R5 (P = 0, single channel) are THEOREMS '
             '(wf_scale_power_noise, wf_scale_gain_noise, wf_scale_gain_energy, wf_zero_power, wf_single_channel) '
             'and are also exercised by correspondence + oracles (inputs at 1e-12..1e12, sizes 2^k-1/2^k/2^k+1, '
@@ -1941,7 +1965,7 @@ def check(ctx):
                 'non-trivial = distinct input with >= 2 channels')
     quick = ctx.tier == 'quick'
     n_rand, n_dyadic, nmax, n_big = (3000, 1000, 64, 0) if quick else (20000, 10000, 128, 600)
-    core.prove(ctx, MODULE, generated=[], drivers=[DRIVER], scratch=ctx.scratch)
+    core.prove(ctx, MODULE, generated=['C12WaterFilling'], drivers=[DRIVER], scratch=ctx.scratch)
     ctx.required_branches = ['dropped=0', 'dropped>=1', 'only-best-kept', 'Es!=1', 'ties', 'n=1', 'n>=32',
                              'gain-spread>=1e9', 'gain-spread>=1e16', 'exact-dyadic', 'error-case']
     cases = make_cases(ctx, n_rand, n_dyadic, nmax, n_big, grid=not quick)
